@@ -25,7 +25,8 @@ func stampDefs() []*schema.StoreDef {
 		Links:  []schema.LinkDef{{Field: "cells", Target: "cells", TargetField: "hubs"}}}
 	cells := &schema.StoreDef{Type: "cells", BasePath: []string{"stores"},
 		Fields: []schema.Field{{Name: "gen", Kind: schema.KI64}, {Name: "name", Kind: schema.KStr}, {Name: "roles", Kind: schema.KList}, {Name: "hub", Kind: schema.KStr, FK: "hubs"},
-			{Name: "hubs", Kind: schema.KLinks, FK: "hubs"}, {Name: "meta", Kind: schema.KMap}},
+			{Name: "hubs", Kind: schema.KLinks, FK: "hubs"}, {Name: "meta", Kind: schema.KMap},
+			{Name: "attrs", Kind: schema.KMap, Prefix: []string{"px", "py"}}}, // a map stored two buckets below the entity
 		Unique: []schema.UniqueDef{{Field: "name"}},
 		SetIdx: []string{"roles"},
 		FKs:    []schema.FKDef{{Field: "hub", Target: "hubs", Kind: schema.FkConstraint, Nullable: false, Cascade: boltz.CascadeNone}},
@@ -67,6 +68,13 @@ func (s *stampDb) writeStateVia(g int64, batch bool) error {
 	}
 	return run(nil, func(ctx boltz.MutateContext) error {
 		tx := ctx.Tx()
+		// the writer looks before it writes: the very filters readers of state(g) will run, evaluated while they still
+		// match nothing
+		for _, q := range []string{fmt.Sprintf("gen = %d", g), fmt.Sprintf(`anyOf(roles) = "%s"`, genRole(g)), fmt.Sprintf(`name = "%s"`, cellName(1, g))} {
+			if ids, _, err := cells.Store.QueryIds(tx, q); err != nil || len(ids) != 0 {
+				return fmt.Errorf("writer pre-query %q inside its transaction: %d ids err=%v (state %d is not written yet)", q, len(ids), err, g)
+			}
+		}
 		for h := 0; h < 2; h++ {
 			id := fmt.Sprintf("h%d", h)
 			e := &schema.Ent{Id: id, Typ: "hubs", V: map[string]any{"gen": g}}
@@ -83,7 +91,8 @@ func (s *stampDb) writeStateVia(g int64, batch bool) error {
 		for i := 0; i < stampCells; i++ {
 			id := cellId(i)
 			e := &schema.Ent{Id: id, Typ: "cells", V: map[string]any{"gen": g, "name": cellName(i, g), "roles": []string{genRole(g), "all"}, "hub": cellHub(i, g),
-				"hubs": []string{cellHub(i, g)}, "meta": map[string]any{"g": g, "tag": genRole(g)}}}
+				"hubs": []string{cellHub(i, g)}, "meta": map[string]any{"g": g, "tag": genRole(g)},
+				"attrs": map[string]any{"net": map[string]any{"zone": genRole(g)}, "hw": map[string]any{"zone": "hz"}}}}
 			var err error
 			if cells.Store.IsEntityPresent(tx, id) {
 				err = cells.Store.Update(ctx, e, nil)
@@ -176,6 +185,8 @@ func (s *stampDb) verifyTx(tx *bbolt.Tx, deep bool) (int64, []string) {
 			{"", allIds},
 			{fmt.Sprintf("gen = %d", g), allIds},
 			{fmt.Sprintf("gen != %d", g), nil},
+			{fmt.Sprintf(`attrs.net.zone = "%s" and attrs.hw.zone = "hz"`, genRole(g)), allIds},
+			{fmt.Sprintf(`attrs.hw.zone = "%s" or attrs.net.zone = "hz"`, genRole(g)), nil},
 			{fmt.Sprintf(`anyOf(roles) = "%s"`, genRole(g)), allIds},
 			{fmt.Sprintf(`name = "%s"`, cellName(1, g)), []string{cellId(1)}},
 			{fmt.Sprintf(`meta.tag = "%s" sort by name desc`, genRole(g)), []string{"c3", "c2", "c1", "c0"}},
